@@ -128,6 +128,24 @@ def run(tier, seed):
     for c in total["viol_count"]:
         if c not in by:
             run.add_violation(c.partition("\x01")[0], c.partition("\x01")[2], {"src": None}, "witness not retained")
+    # Miri phase: the same monitor over a shard of short hostile strings, with the interpreter watching the lexer
+    # (and chumsky's unsafe code under it) for undefined behaviour
+    miri_info = {"status": "not_run"}
+    import os
+    if tier != "quick" or os.environ.get("PV_MIRI"):
+        from ..mon import miri
+        mrng = core.shard_rng(seed, "C17:miri", 0)
+        pool = [s for s in pair_strings() if len(s) <= 24] + [s[:mrng.randint(1, 40)] for s in corpus.sources()]
+        pool += ["".join(mrng.choice(ALPHA_MAIN) for _ in range(mrng.randint(1, 6))) for _ in range(400)]
+        n_m = 640 if tier != "quick" else 64
+        msrcs = mrng.sample(pool, min(n_m, len(pool)))
+        mv, mres = miri.run_phase("c17", msrcs, 40 if tier != "quick" else 4, miri_info, "C17")
+        run.extend(mv)
+        for s_, r_ in zip(msrcs, mres):
+            if isinstance(r_, dict):
+                for v in r_.get("violations", []):
+                    sym, _, shape = v["clause"].partition("\x01")
+                    run.add_violation(sym, shape, {"src": s_}, "(under Miri) " + v["detail"])
     adj = total["adjacency"]
     kinds = sorted({k[0] for k in adj} | {k[1] for k in adj})
     run.coverage = {
@@ -146,12 +164,14 @@ def run(tier, seed):
         "adjacency_cells_seen": len(adj),
         "adjacency_cells_without_whitespace": sum(1 for k in adj if not k[2]),
         "violations_by_clause": total["viol_count"],
+        "miri": miri_info,
         "samples": [s for s in srcs[-5:]] + ["tr ue+1", ALPHA_MAIN[:6]],
     }
     run.assumptions = [
         "token spans are byte offsets into the UTF-8 source (as returned by prql_to_tokens); 'character boundary' = str::is_char_boundary",
         "inline whitespace = Unicode White_Space except line terminators (LF, CR, VT, FF, NEL, LS, PS)",
         "'same token' = equal TokenKind (PartialEq), span of the isolated lex covering the whole slice",
+        "Miri phase (thorough tier, or PV_MIRI=1): coverage.miri.status is 'ran' only if the interpreter reported its self-test (an out-of-bounds read); 'unavailable' / 'not_effective' mean no verdict from that phase. No report on N sources is not a proof of memory safety",
         "leading text before the first token and trailing text after the last are held to the same 'only inline whitespace' rule as gaps",
     ]
     return run
@@ -162,6 +182,9 @@ def _shape(src):
 
 
 def replay(case):
+    if case.get("miri"):
+        from ..mon import miri
+        return miri.replay(case["miri"], case["src"], "C17")
     w = core.Worker()
     r = w.call({"op": "tokens", "src": case["src"]})
     w.close()
